@@ -29,6 +29,7 @@ RULE = (
     "values empty, merge refused; a generated existence-based update history U (create/delete/replace/set+del attr, "
     "no reads, no copy/move) is applied via stub and directly: per-op success parity, the stub-made patch opens as "
     "next patch of the real files and shows exactly the reference result, extensions persist through the stub. "
+    "Optionally one patch is made with the plain IH5Record class before a last manifest patch (extensions persist). "
     "Non-trivial = real record with >=2 containers incl. a delete, and U deletes/replaces a node that lives in a "
     "non-newest real container; distinct by bound ops of history and U"
 )
